@@ -18,9 +18,16 @@ EXPLANATION = (
 )
 
 
+def _shared(ctx, repo):
+    from . import c06 as _c06
+
+    ctx.each(_c06.r06m, ctx, repo)  # junction proportions that are functions are flagged for evaluation before they are read
+
+
 def run(ctx):
     repo = ctx.repo
     T = K.types(repo)
+    _shared(ctx, repo)
     ctx.each(r04a, ctx, repo)
     ctx.each(r04b, ctx, repo)
     ctx.each(r04c, ctx, repo)
@@ -115,7 +122,9 @@ def r04b(ctx, repo):
     for l in own_nodes(fj.node):
         if isinstance(l, ast.For) and "_exec_order['junctions']" in ast.unparse(l.iter) and not isinstance(l.iter, ast.Call):
             lv = l.target.id if isinstance(l.target, ast.Name) else None
-            good = any(isinstance(c, ast.Call) and isinstance(c.func, ast.Attribute) and c.func.attr == "initial_flush" and astq.is_name(c.func.value, lv) for c in ast.walk(l))
+            fl = [c for c in ast.walk(l) if isinstance(c, ast.Call) and isinstance(c.func, ast.Attribute) and c.func.attr == "initial_flush" and astq.is_name(c.func.value, lv)]
+            # ... and every junction of the list is flushed: a junction filled by the flush of the one before it has no people *before* the loop and need not be a databook quantity
+            good = len(fl) == 1 and not guards_of(enclosing_stmt(fl[0]), stop=l)
     ctx.check(good, "R04b", fj, fj.node, "initial flush runs over the same flow-ordered list", "flush_junctions does not flush every junction of _exec_order['junctions'] in order: people in chained junctions are left behind")
 
 
